@@ -79,6 +79,7 @@ from dulwich.refs import (
     SYMREF,
     Ref,
     RefsContainer,
+    SymrefLoop,
 )
 
 if sys.version_info >= (3, 11):
@@ -1030,8 +1031,9 @@ class ReftableRefsContainer(RefsContainer):
             # Unknown value type
             raise ValueError(f"Unknown ref value type: {value_type}")
 
-        # Too many levels of indirection
-        raise ValueError(f"Too many levels of symbolic ref indirection for {name!r}")
+        # Too many levels of indirection: the error the other backends raise,
+        # which as_dict() and friends know how to skip
+        raise SymrefLoop(name, MAX_SYMREF_DEPTH)
 
     def __getitem__(self, name: Ref) -> ObjectID:
         """Get the SHA1 for a reference name.
